@@ -5,11 +5,12 @@ set -u
 P="$1"; PROP="$2"; TIER="${3:-quick}"
 cd /repo || exit 2
 if [ -n "$(git status --porcelain)" ]; then echo "/repo not clean" >&2; exit 2; fi
+trap 'git -C /repo checkout -- . ; git -C /repo clean -fdq' EXIT INT TERM
 case "$P" in
   revert:*) git show -R "${P#revert:}" -- . ':!*_test.go' | git apply || { echo "cannot revert" >&2; exit 2; } ;;
   *) git apply "$P" || { echo "cannot apply $P" >&2; exit 2; } ;;
 esac
-OUT=$(cd /verif && ./run.sh "$PROP" "$TIER" 2>&1); RC=$?
+OUT=$(cd /verif && timeout ${TRY_TIMEOUT:-1500} ./run.sh "$PROP" "$TIER" 2>&1); RC=$?
 git -C /repo checkout -- . ; git -C /repo clean -fdq
 echo "$OUT" | grep -v '^VIOLATION' | head -${LINES_SHOWN:-6}
 echo "$OUT" | grep -c '^VIOLATION' | sed 's/^/violation lines: /'
